@@ -742,7 +742,6 @@ Proof.
 Qed.
 
 
-(* DEV *)
 (* ---------------------------------------------------------------- cubic *)
 Definition t1 (t : rx * rx * rx) : rx := fst (fst t).
 Definition t2 (t : rx * rx * rx) : rx := snd (fst t).
@@ -879,7 +878,7 @@ Proof.
           + cbn [radd rdiv rq is_zero eval]. intros Ez X1 _.
             apply is0_false in Ez. apply Ez.
             apply ofQ_inj. rewrite ofQ_0, ofQ_Qred.
-            rewrite ofQ_div by qnz. rewrite ofQ_add, !ofQ_Qred, X1, ofQ_int. fold D1. field. exact T2.
+            rewrite ofQ_div by qnz. rewrite !ofQ_Qred, ofQ_add, !ofQ_Qred, X1, ofQ_int. fold D1. field. exact T2.
           + cbn [rad_ok eval]. intros _ X1 [_ Osq].
             apply (rsqrt_unfolded_irrational _ (- delta1)%Q Es Osq).
             rewrite ofQ_opp. exact X1. }
@@ -924,5 +923,588 @@ Proof.
   assert (E0 : ofQ c0 = - (ofQ c3 * (r1 * r2 * r3))) by (rewrite V3; field; exact N3).
   rewrite E2, E1, E0. ring.
 Qed.
+
+(* ---------------------------------------------------------------- sets of three, pairs *)
+Lemma mul_eq0_iff : forall a b : F, a * b = 0 <-> a = 0 \/ b = 0.
+Proof.
+  intros a b. split; [apply F_integral|]. intros [-> | ->]; ring.
+Qed.
+
+Lemma sub_eq0_iff : forall x v : F, x - v = 0 <-> x = v.
+Proof.
+  intros x v. split; intro H.
+  - transitivity ((x - v) + v); [ring | rewrite H; ring].
+  - rewrite H. ring.
+Qed.
+
+Lemma set_of3_shape : forall a b c,
+  let s := set_of [a; b; c] in
+  (rx_eqb b a = true /\ rx_eqb c a = true /\ s = [a]) \/
+  (rx_eqb b a = true /\ rx_eqb c a = false /\ s = [a; c]) \/
+  (rx_eqb b a = false /\ (rx_eqb c a = true \/ rx_eqb c b = true) /\ s = [a; b]) \/
+  (rx_eqb b a = false /\ rx_eqb c a = false /\ rx_eqb c b = false /\ s = [a; b; c]).
+Proof.
+  intros a b c. unfold set_of, set_insert, set_mem. cbn [fold_left existsb app orb].
+  destruct (rx_eqb b a) eqn:Eba; cbn [orb app existsb].
+  - destruct (rx_eqb c a) eqn:Eca; cbn [orb app]; tauto.
+  - destruct (rx_eqb c a) eqn:Eca; cbn [orb app existsb].
+    + right; right; left. tauto.
+    + destruct (rx_eqb c b) eqn:Ecb; cbn [orb app]; tauto.
+Qed.
+
+Lemma pairs_vieta : forall a b c z1 z2,
+  In (z1, z2) (pairs_of (set_of [a; b; c])) ->
+  exists v3,
+    eval z1 + eval z2 + v3 = eval a + eval b + eval c /\
+    eval z1 * eval z2 + eval z1 * v3 + eval z2 * v3
+      = eval a * eval b + eval a * eval c + eval b * eval c /\
+    eval z1 * eval z2 * v3 = eval a * eval b * eval c.
+Proof.
+  intros a b c z1 z2 H.
+  destruct (set_of3_shape a b c) as [[Eb [Ec S]] | [[Eb [Ec S]] | [[Eb [Ec S]] | [Eb [Ec [Ecb S]]]]]];
+    cbv zeta in S; rewrite S in H; cbn [pairs_of In] in H.
+  - destruct H as [H | []]. injection H as <- <-.
+    exists (eval a). rewrite (rx_eqb_eval _ _ Eb), (rx_eqb_eval _ _ Ec). repeat split; ring.
+  - rewrite (rx_eqb_eval _ _ Eb).
+    destruct H as [H | [H | []]]; injection H as <- <-; exists (eval a); repeat split; ring.
+  - assert (X : eval c = eval a \/ eval c = eval b) by (destruct Ec as [E | E]; [left | right]; apply rx_eqb_eval; exact E).
+    destruct H as [H | [H | []]]; injection H as <- <-; exists (eval c); repeat split; ring.
+  - destruct H as [H | [H | [H | [H | [H | [H | []]]]]]]; injection H as <- <-;
+      [exists (eval c) | exists (eval b) | exists (eval a) | exists (eval c) | exists (eval b) | exists (eval a)];
+      repeat split; ring.
+Qed.
+
+Lemma pairs_nonempty : forall a b c, pairs_of (set_of [a; b; c]) <> [].
+Proof.
+  intros a b c.
+  destruct (set_of3_shape a b c) as [[_ [_ S]] | [[_ [_ S]] | [[_ [_ S]] | [_ [_ [_ S]]]]]];
+    cbv zeta in S; rewrite S; cbn [pairs_of]; discriminate.
+Qed.
+
+Lemma vals_map : forall (f : rx -> rx) l v,
+  vals (map f l) v <-> exists r, In r l /\ eval (f r) = v.
+Proof.
+  intros f l v. unfold vals. split.
+  - intros [m [Hm E]]. apply in_map_iff in Hm. destruct Hm as [r [<- Hr]]. exists r. tauto.
+  - intros [r [Hr E]]. exists (f r). split; [apply in_map; exact Hr | exact E].
+Qed.
+
+Lemma vals_flat_map : forall (f : rx -> list rx) l v,
+  vals (flat_map f l) v <-> exists r, In r l /\ vals (f r) v.
+Proof.
+  intros f l v. unfold vals. split.
+  - intros [m [Hm E]]. apply in_flat_map in Hm. destruct Hm as [r [Hr Hm]]. exists r. split; [exact Hr|]. exists m. tauto.
+  - intros [r [Hr [m [Hm E]]]]. exists m. split; [apply in_flat_map; exists r; tauto | exact E].
+Qed.
+
+Lemma vals_cons : forall a l v, vals (a :: l) v <-> (v = eval a \/ vals l v).
+Proof.
+  intros a l v. unfold vals. cbn [In]. split.
+  - intros [r [[<- | Hr] E]]; [left; symmetry; exact E | right; exists r; tauto].
+  - intros [-> | [r [Hr E]]]; [exists a; tauto | exists r; tauto].
+Qed.
+
+Lemma vals_nil : forall v, vals [] v <-> False.
+Proof. intro v. unfold vals. cbn [In]. split; [intros [r [[] _]] | tauto]. Qed.
+
+Lemma cubic_set_vals : forall c0 c1 c2 c3 v,
+  vals (cubic_set c0 c1 c2 c3) v <->
+  (v = eval (t1 (cubic_roots c0 c1 c2 c3)) \/ v = eval (t2 (cubic_roots c0 c1 c2 c3))
+   \/ v = eval (t3 (cubic_roots c0 c1 c2 c3))).
+Proof.
+  intros c0 c1 c2 c3 v. unfold cubic_set. destruct (cubic_roots c0 c1 c2 c3) as [[r1 r2] r3].
+  rewrite vals_set_of, !vals_cons, vals_nil. cbn [t1 t2 t3 fst snd]. tauto.
+Qed.
+
+(* the two quadratic roots coincide exactly when the discriminant vanishes *)
+Theorem quadratic_double_iff : forall c0 c1 c2, ~ (c2 == 0)%Q ->
+  let rr := quadratic_roots c0 c1 c2 in
+  rad_ok (fst rr) -> rad_ok (snd rr) ->
+  (eval (fst rr) = eval (snd rr) <-> (c1 * c1 - 4 * c0 * c2 == 0)%Q).
+Proof.
+  intros c0 c1 c2 H2 rr O1 O2.
+  destruct (quadratic_vieta _ _ _ H2 O1 O2) as [V1 V2]. fold rr in V1, V2.
+  pose proof (ofQ_neq0 _ H2) as N2. pose proof two_neq0 as T2.
+  set (u := eval (fst rr)) in *. set (w := eval (snd rr)) in *. clearbody u w.
+  assert (E : (u - w) * (u - w) * (ofQ c2 * ofQ c2) = ofQ (c1 * c1 - 4 * c0 * c2)).
+  { pushQ.
+    assert (E1 : ofQ c1 = - (ofQ c2 * (u + w))) by (rewrite V1; field; exact N2).
+    assert (E0 : ofQ c0 = ofQ c2 * (u * w)) by (rewrite V2; field; exact N2).
+    rewrite E1, E0. numerals. ring. }
+  split.
+  - intro H. apply ofQ_inj. rewrite ofQ_0, <- E, H. ring.
+  - intro H. rewrite (ofQ_eq0 _ H) in E.
+    apply mul_eq0_iff in E. destruct E as [E | E].
+    + apply mul_eq0_iff in E. apply sub_eq0_iff. tauto.
+    + apply mul_eq0_iff in E. tauto.
+Qed.
+
+(* a pole that is returned: f = (x^2 - 2)/(x^3 - x^2 - 2x + 2); sqrt(2) is a member of the
+   model's answer and a zero of the denominator in every field *)
+Lemma rational_pole_witness :
+  (exists alt, solve_rational [-2#1; 0%Q; 1%Q] [2#1; -2#1; -1#1; 1%Q] = Ok (SFinite [alt]) /\ In (RSqrt (RQ (2#1))) alt)
+  /\ (rad_ok (RSqrt (RQ (2#1))) -> peval [2#1; -2#1; -1#1; 1%Q] (eval (RSqrt (RQ (2#1)))) = 0).
+Proof.
+  split.
+  - eexists. split; [vm_compute; reflexivity | cbn [In]; left; reflexivity].
+  - cbn [rad_ok eval peval]. intros [_ H]. rewrite !ofQ_int in *. rewrite ofZ_1.
+    set (s := fsqrt (ofZ 2)) in *. clearbody s.
+    change (-2)%Z with (- (2))%Z. change (-1)%Z with (- (1))%Z. rewrite !ofZ_opp, ofZ_1.
+    numerals. nsatz'.
+Qed.
+
+(* the templates whose radicals solve_poly_quartic relies on *)
+Definition quartic_radicals (c0 c1 c2 c3 c4 : Q) : list rx :=
+  let lc := c4 in
+  let a := (c3 / lc)%Q in
+  let b := (c2 / lc)%Q in
+  let c := (c1 / lc)%Q in
+  let d := (c0 / lc)%Q in
+  if is0 d then
+    let t := cubic_roots c b a 1 in [t1 t; t2 t; t3 t]
+  else
+    let sqa := (a * a)%Q in
+    let cba := (sqa * a)%Q in
+    let aby4 := (a / 4)%Q in
+    let e := (b - (3 * sqa) / 8)%Q in
+    let ff := ((c + cba / 8) - (a * b) / 2)%Q in
+    let g := ((d + (sqa * b) / 16) - ((a * c) / 4 + (3 * cba * a) / 256))%Q in
+    if is0 g then
+      let t := cubic_roots ff e 0 1 in [t1 t; t2 t; t3 t]
+    else if is0 ff then
+      let qq := quadratic_roots g e 1 in [fst qq; snd qq; rsqrt (fst qq); rsqrt (snd qq)]
+    else
+      let t := cubic_roots (- ((ff * ff) / 64)) ((e * e - 4 * g) / 16) (e / 2) 1 in
+      [t1 t; t2 t; t3 t; rsqrt (t1 t); rsqrt (t2 t); rsqrt (t3 t)].
+
+Lemma cubic_roots_iff_local : forall c0 c1 c2 c3, ~ (c3 == 0)%Q ->
+  rad_ok (t1 (cubic_roots c0 c1 c2 c3)) -> rad_ok (t2 (cubic_roots c0 c1 c2 c3)) ->
+  rad_ok (t3 (cubic_roots c0 c1 c2 c3)) ->
+  forall x, peval [c0; c1; c2; c3] x = 0 <-> vals (cubic_set c0 c1 c2 c3) x.
+Proof.
+  intros c0 c1 c2 c3 H3 O1 O2 O3 x.
+  rewrite (cubic_factor c0 c1 c2 c3 H3 O1 O2 O3 x).
+  rewrite cubic_set_vals. pose proof (ofQ_neq0 _ H3) as N3.
+  rewrite !mul_eq0_iff, !sub_eq0_iff. tauto.
+Qed.
+
+Lemma pairs_in : forall s z1 z2, In (z1, z2) (pairs_of s) -> In z1 s /\ In z2 s.
+Proof.
+  intros s z1 z2 H. destruct s as [|x [|y [|z [|w s']]]]; cbn [pairs_of In] in *; try tauto.
+  - destruct H as [H | []]. injection H as <- <-. tauto.
+  - destruct H as [H | [H | []]]; injection H as <- <-; tauto.
+  - destruct H as [H | [H | [H | [H | [H | [H | []]]]]]]; injection H as <- <-; tauto.
+Qed.
+
+Theorem quartic_exact_local : forall c0 c1 c2 c3 c4, ~ (c4 == 0)%Q ->
+  (forall e, In e (quartic_radicals c0 c1 c2 c3 c4) -> rad_ok e) ->
+  forall alt, In alt (quartic_alts c0 c1 c2 c3 c4) ->
+  forall x, peval [c0; c1; c2; c3; c4] x = 0 <-> vals alt x.
+Proof.
+  intros c0 c1 c2 c3 c4 H4 Hloc alt Halt x.
+  pose proof (ofQ_neq0 _ H4) as N4. pose proof two_neq0 as T2.
+  assert (EA : ofQ (c3 / c4) = ofQ c3 / ofQ c4) by (apply ofQ_div; exact H4).
+  assert (EB : ofQ (c2 / c4) = ofQ c2 / ofQ c4) by (apply ofQ_div; exact H4).
+  assert (EC : ofQ (c1 / c4) = ofQ c1 / ofQ c4) by (apply ofQ_div; exact H4).
+  assert (ED : ofQ (c0 / c4) = ofQ c0 / ofQ c4) by (apply ofQ_div; exact H4).
+  unfold quartic_alts in Halt. cbv zeta in Halt. unfold quartic_radicals in Hloc. cbv zeta in Hloc.
+  set (a := (c3 / c4)%Q) in *. set (b := (c2 / c4)%Q) in *. set (c := (c1 / c4)%Q) in *. set (d := (c0 / c4)%Q) in *.
+  assert (Emonic : peval [c0; c1; c2; c3; c4] x
+                   = ofQ c4 * (x * x * x * x + ofQ a * x * x * x + ofQ b * x * x + ofQ c * x + ofQ d)).
+  { cbn [peval]. rewrite EA, EB, EC, ED. field. exact N4. }
+  rewrite Emonic. rewrite mul_eq0_iff.
+  assert (X1 : forall z, z / 1 = z) by (intro z; field; apply (F_1_neq_0 Fth)).
+  assert (H1 : ~ (1 == 0)%Q) by qnz.
+  clearbody a b c d. clear Emonic EA EB EC ED.
+  set (A := ofQ a) in *. set (B := ofQ b) in *. set (C := ofQ c) in *. set (D := ofQ d) in *.
+  destruct (is0 d) eqn:Ed.
+  - (* d == 0 *)
+    destruct Halt as [<- | []].
+    assert (Oc : rad_ok (t1 (cubic_roots c b a 1)) /\ rad_ok (t2 (cubic_roots c b a 1)) /\ rad_ok (t3 (cubic_roots c b a 1)))
+      by (repeat split; apply Hloc; cbn [In]; tauto).
+    destruct Oc as [Oc1 [Oc2 Oc3]].
+    apply is0_true in Ed. apply ofQ_eq0 in Ed. fold D in Ed.
+    rewrite vals_set_insert, eval_rq, ofQ_0.
+    rewrite <- (cubic_roots_iff_local c b a 1 H1 Oc1 Oc2 Oc3 x). cbn [peval]. rewrite ofQ_1. fold A B C.
+    assert (E : x * x * x * x + A * x * x * x + B * x * x + C * x + D
+                = x * (C + x * (B + x * (A + x * (1 + x * 0))))) by (rewrite Ed; ring).
+    rewrite E, mul_eq0_iff. tauto.
+  - set (sqa := (a * a)%Q) in *. set (cba := (sqa * a)%Q) in *. set (aby4 := (a / 4)%Q) in *.
+    set (e := (b - 3 * sqa / 8)%Q) in *.
+    set (ff := (c + cba / 8 - a * b / 2)%Q) in *.
+    set (g := (d + sqa * b / 16 - (a * c / 4 + 3 * cba * a / 256))%Q) in *.
+    assert (Ee : ofQ e = B - (Z_ 3 * (A * A)) / Z_ 8) by (unfold e, sqa; pushQ; reflexivity).
+    assert (Eff : ofQ ff = (C + (A * A * A) / Z_ 8) - (A * B) / Z_ 2) by (unfold ff, cba, sqa; pushQ; reflexivity).
+    assert (Eg : ofQ g = (D + (A * A * B) / Z_ 16) - ((A * C) / Z_ 4 + (Z_ 3 * (A * A * A) * A) / Z_ 256))
+      by (unfold g, cba, sqa; pushQ; reflexivity).
+    assert (Eaby4 : ofQ aby4 = A / Z_ 4) by (unfold aby4; pushQ; reflexivity).
+    pose proof (depress A B C D x) as Edep. cbv zeta in Edep.
+    rewrite <- Ee, <- Eff, <- Eg, <- Eaby4 in Edep. rewrite Edep. clear Edep.
+    set (y := x + ofQ aby4).
+    assert (Exy : forall v, y = v <-> x = v - ofQ aby4).
+    { intro v. unfold y. split; intro H; [rewrite <- H | rewrite H]; ring. }
+    clearbody e ff g aby4. clear Ee Eff Eg Eaby4.
+    destruct (is0 g) eqn:Eg0.
+    + (* g == 0 *)
+      destruct Halt as [<- | []].
+      assert (Oc : rad_ok (t1 (cubic_roots ff e 0 1)) /\ rad_ok (t2 (cubic_roots ff e 0 1)) /\ rad_ok (t3 (cubic_roots ff e 0 1)))
+        by (repeat split; apply Hloc; cbn [In]; tauto).
+      destruct Oc as [Oc1 [Oc2 Oc3]].
+      apply is0_true in Eg0. apply ofQ_eq0 in Eg0.
+      rewrite vals_set_insert, vals_set_of, vals_map.
+      assert (E : y * y * y * y + ofQ e * y * y + ofQ ff * y + ofQ g = y * peval [ff; e; 0%Q; 1%Q] y).
+      { cbn [peval]. rewrite Eg0, ofQ_0, ofQ_1. ring. }
+      rewrite E, mul_eq0_iff, (cubic_roots_iff_local ff e 0 1 H1 Oc1 Oc2 Oc3 y).
+      rewrite eval_rneg, eval_rq.
+      split.
+      * intros [X | [X | [r [Hr Er]]]]; [contradiction | right | left].
+        -- apply (Exy 0) in X. rewrite X. ring.
+        -- exists r. split; [exact Hr|]. rewrite eval_rsub, eval_rq. symmetry. apply Exy. symmetry. exact Er.
+      * intros [[r [Hr Er]] | X]; right.
+        -- right. exists r. split; [exact Hr|]. rewrite eval_rsub, eval_rq in Er. symmetry. apply Exy. symmetry. exact Er.
+        -- left. apply Exy. rewrite X. ring.
+    + destruct (is0 ff) eqn:Eff0.
+      * (* ff == 0 : biquadratic *)
+        apply is0_true in Eff0. apply ofQ_eq0 in Eff0.
+        pose proof (quadratic_vieta g e 1 H1) as QV. cbv zeta in QV.
+        destruct (quadratic_roots g e 1) as [q1 q2]. cbn [fst snd] in QV, Hloc.
+        destruct (QV (Hloc q1 ltac:(cbn [In]; tauto)) (Hloc q2 ltac:(cbn [In]; tauto))) as [V1 V2].
+        rewrite ofQ_1, X1 in V1, V2.
+        destruct Halt as [<- | []].
+        rewrite vals_set_of, vals_flat_map.
+        assert (E : y * y * y * y + ofQ e * y * y + ofQ ff * y + ofQ g
+                    = (y * y - eval q1) * (y * y - eval q2)).
+        { rewrite Eff0. set (u := eval q1) in *. set (w := eval q2) in *. clearbody u w. nsatz'. }
+        rewrite E, mul_eq0_iff, !sub_eq0_iff.
+        assert (Esq : forall r, In r (set_of [q1; q2]) -> (y * y = eval r <-> (y = eval (rsqrt r) \/ y = - eval (rsqrt r)))).
+        { intros r Hr0. apply in_set_of_sub in Hr0.
+          assert (Or : rad_ok (rsqrt r)) by (apply Hloc; cbn [In] in *; destruct Hr0 as [<- | [<- | []]]; tauto).
+          pose proof (rsqrt_sq r Or) as S. set (s := eval (rsqrt r)) in *. clearbody s.
+          split.
+          - intro H. assert (X : (y - s) * (y + s) = 0) by (rewrite <- S in H; nsatz').
+            apply mul_eq0_iff in X. destruct X as [X | X]; [left | right].
+            + apply sub_eq0_iff. exact X.
+            + transitivity ((y + s) - s); [ring | rewrite X; ring].
+          - intros [-> | ->]; rewrite <- S; ring. }
+        split.
+        -- intros [X | [X | X]]; [contradiction | |].
+           ++ assert (Hv : vals (set_of [q1; q2]) (eval q1)) by (rewrite vals_set_of, !vals_cons; tauto).
+              destruct Hv as [r [Hr Er]]. rewrite <- Er in X. apply (Esq r Hr) in X.
+              exists r. split; [exact Hr|]. rewrite !vals_cons, vals_nil, !eval_rsub, eval_rneg, eval_rq.
+              destruct X as [X | X]; [left | right; left]; apply Exy; exact X.
+           ++ assert (Hv : vals (set_of [q1; q2]) (eval q2)) by (rewrite vals_set_of, !vals_cons; tauto).
+              destruct Hv as [r [Hr Er]]. rewrite <- Er in X. apply (Esq r Hr) in X.
+              exists r. split; [exact Hr|]. rewrite !vals_cons, vals_nil, !eval_rsub, eval_rneg, eval_rq.
+              destruct X as [X | X]; [left | right; left]; apply Exy; exact X.
+        -- intros [r [Hr Hv]]. right.
+           rewrite !vals_cons, vals_nil, !eval_rsub, eval_rneg, eval_rq in Hv.
+           assert (Y : y * y = eval r).
+           { apply (Esq r Hr). destruct Hv as [Hv | [Hv | []]]; [left | right]; apply Exy; exact Hv. }
+           assert (Hm : vals (set_of [q1; q2]) (eval r)) by (exists r; tauto).
+           rewrite vals_set_of, !vals_cons, vals_nil in Hm. rewrite Y.
+           destruct Hm as [Hm | [Hm | []]]; [left | right]; exact Hm.
+      * (* Euler *)
+        apply is0_false in Eff0. assert (NFF : ofQ ff <> 0) by (apply ofQ_neq0; exact Eff0).
+        apply in_map_iff in Halt. destruct Halt as [[z1 z2] [<- Hp]]. cbn [fst snd].
+        unfold cubic_set in Hp.
+        pose proof (cubic_vieta (- (ff * ff / 64)) ((e * e - 4 * g) / 16) (e / 2) 1 H1) as CV. cbv zeta in CV.
+        destruct (cubic_roots (- (ff * ff / 64)) ((e * e - 4 * g) / 16) (e / 2) 1) as [[u1 u2] u3].
+        cbn [t1 t2 t3 fst snd] in CV, Hloc.
+        destruct (CV (Hloc u1 ltac:(cbn [In]; tauto)) (Hloc u2 ltac:(cbn [In]; tauto)) (Hloc u3 ltac:(cbn [In]; tauto)))
+          as [CV1 [CV2 CV3]].
+        destruct (pairs_in _ _ _ Hp) as [Hz1 Hz2].
+        apply in_set_of_sub in Hz1. apply in_set_of_sub in Hz2.
+        destruct (pairs_vieta u1 u2 u3 z1 z2 Hp) as [v3 [PV1 [PV2 PV3]]].
+        rewrite CV1 in PV1. rewrite CV2 in PV2. rewrite CV3 in PV3.
+        rewrite ofQ_1, X1 in PV1, PV2, PV3.
+        assert (K1 : eval z1 + eval z2 + v3 = - (ofQ e / Z_ 2)) by (rewrite PV1; pushQ; reflexivity).
+        assert (K2 : eval z1 * eval z2 + eval z1 * v3 + eval z2 * v3 = (ofQ e * ofQ e - Z_ 4 * ofQ g) / Z_ 16)
+          by (rewrite PV2; pushQ; reflexivity).
+        assert (K3 : eval z1 * eval z2 * v3 = (ofQ ff * ofQ ff) / Z_ 64)
+          by (rewrite PV3; pushQ; field; apply ofZ_pos_neq0).
+        assert (Oz1 : rad_ok (rsqrt z1)) by (apply Hloc; cbn [In] in *; destruct Hz1 as [<- | [<- | [<- | []]]]; tauto).
+        assert (Oz2 : rad_ok (rsqrt z2)) by (apply Hloc; cbn [In] in *; destruct Hz2 as [<- | [<- | [<- | []]]]; tauto).
+        pose proof (rsqrt_sq z1 Oz1) as SP. pose proof (rsqrt_sq z2 Oz2) as SQ.
+        destruct (euler (ofQ e) (ofQ ff) (ofQ g) (eval z1) (eval z2) v3 (eval (rsqrt z1)) (eval (rsqrt z2)) y
+                    K1 K2 K3 SP SQ NFF) as [N8 EU].
+        cbv zeta in EU. rewrite EU. clear EU.
+        unfold euler_roots. rewrite vals_set_of, !vals_cons, vals_nil.
+        assert (N8' : eval (rmul3 (rq 8) (rsqrt z1) (rsqrt z2)) <> 0)
+          by (rewrite eval_rmul3, eval_rq, ofQ_int; exact N8).
+        rewrite !eval_radd4, !eval_rneg, !eval_rdiv, eval_rmul3, !eval_rneg, !eval_rq, ofQ_int by exact N8'.
+        set (P := eval (rsqrt z1)) in *. set (Q := eval (rsqrt z2)) in *.
+        set (R := - ofQ ff / (Z_ 8 * P * Q)) in *.
+        rewrite !mul_eq0_iff, !sub_eq0_iff, !Exy.
+        assert (Y1 : P + Q + R - ofQ aby4 = P + Q + R + - ofQ aby4) by ring.
+        assert (Y2 : P + - Q + - R - ofQ aby4 = P + - Q + - R + - ofQ aby4) by ring.
+        assert (Y3 : - P + Q + - R - ofQ aby4 = - P + Q + - R + - ofQ aby4) by ring.
+        assert (Y4 : - P + - Q + R - ofQ aby4 = - P + - Q + R + - ofQ aby4) by ring.
+        rewrite Y1, Y2, Y3, Y4. tauto.
+Qed.
+
+Lemma quartic_alts_nonempty : forall c0 c1 c2 c3 c4, quartic_alts c0 c1 c2 c3 c4 <> [].
+Proof.
+  intros. unfold quartic_alts. cbv zeta.
+  destruct (is0 (c0 / c4)); [discriminate|].
+  match goal with |- context [is0 ?g] => destruct (is0 g) end; [discriminate|].
+  match goal with |- context [is0 ?g] => destruct (is0 g) end.
+  - destruct (quadratic_roots _ _ _). discriminate.
+  - unfold cubic_set. destruct (cubic_roots _ _ _ _) as [[u1 u2] u3].
+    intro H. apply map_eq_nil in H. revert H. apply pairs_nonempty.
+Qed.
+
+(* ---------------------------------------------------------------- dispatch *)
+Lemma peval_strip : forall cs x, peval (strip_high cs) x = peval cs x.
+Proof.
+  induction cs as [|c rest IH]; intro x; [reflexivity|].
+  cbn [strip_high]. specialize (IH x).
+  destruct (strip_high rest) as [|s r] eqn:E.
+  - cbn [peval] in IH. destruct (is0 c) eqn:Ec; cbn [peval]; rewrite <- IH.
+    + apply is0_true in Ec. rewrite (ofQ_eq0 _ Ec). ring.
+    + reflexivity.
+  - cbn [peval] in *. rewrite IH. reflexivity.
+Qed.
+
+Lemma strip_last_nz : forall cs l c, strip_high cs = l ++ [c] -> ~ (c == 0)%Q.
+Proof.
+  induction cs as [|c' rest IH]; intros l c H.
+  - destruct l; discriminate.
+  - cbn [strip_high] in H. destruct (strip_high rest) as [|s r] eqn:E.
+    + destruct (is0 c') eqn:Ec; [destruct l; discriminate|].
+      destruct l as [|x l]; [injection H as ->; apply is0_false; exact Ec|].
+      destruct l; discriminate.
+    + destruct l as [|x l]; [discriminate|]. injection H as -> H. exact (IH l c H).
+Qed.
+
+Lemma peval_extract : forall cs x, peval (extract_coeffs cs) x = peval cs x.
+Proof.
+  intros cs x. unfold extract_coeffs. pose proof (peval_strip cs x) as H.
+  destruct (strip_high cs) as [|s r]; [|exact H].
+  cbn [peval] in *. rewrite <- H, ofQ_0. ring.
+Qed.
+
+Lemma extract_last_nz : forall cs l c, (1 <= length l)%nat -> extract_coeffs cs = l ++ [c] -> ~ (c == 0)%Q.
+Proof.
+  intros cs l c Hl H. unfold extract_coeffs in H.
+  destruct (strip_high cs) as [|s r] eqn:E.
+  - destruct l as [|x l]; [cbn in Hl; lia|]. destruct l; discriminate.
+  - apply (strip_last_nz cs l c). rewrite E. exact H.
+Qed.
+
+Definition sres_spec (cs : list Q) (s : sres) : Prop :=
+  match s with
+  | SDomain => forall x, peval cs x = 0
+  | SEmpty => forall x, peval cs x <> 0
+  | SFinite alts => alts <> [] /\ forall alt, In alt alts -> forall x, peval cs x = 0 <-> vals alt x
+  | SCondition => (5 < length (extract_coeffs cs))%nat
+  end.
+
+Definition solve_poly_radicals (cs : list Q) : list rx :=
+  match extract_coeffs cs with
+  | [c0; c1; c2] => let qq := quadratic_roots c0 c1 c2 in [fst qq; snd qq]
+  | [c0; c1; c2; c3] => let t := cubic_roots c0 c1 c2 c3 in [t1 t; t2 t; t3 t]
+  | [c0; c1; c2; c3; c4] => quartic_radicals c0 c1 c2 c3 c4
+  | _ => []
+  end.
+
+(* the dispatch theorem under the local hypothesis: only the radicals that the computation
+   for this polynomial relies on have to satisfy their defining relations *)
+Theorem solve_poly_exact_local : forall cs s,
+  (forall e, In e (solve_poly_radicals cs) -> rad_ok e) ->
+  solve_poly cs = Ok s -> sres_spec cs s.
+Proof.
+  intros cs s Hloc H. unfold solve_poly in H. unfold solve_poly_radicals in Hloc.
+  pose proof (peval_extract cs) as Hpe. pose proof (extract_last_nz cs) as Hnz.
+  destruct (extract_coeffs cs) as [|c0 [|c1 [|c2 [|c3 [|c4 [|c5 rest]]]]]] eqn:Eco;
+    cbn [length Nat.leb solve_poly_heuristics lift1 solve_poly_linear solve_poly_quadratic solve_poly_cubic solve_poly_quartic] in H.
+  - discriminate.
+  - injection H as <-. destruct (is0 c0) eqn:E0; cbn [sres_spec]; intro x; rewrite <- Hpe; cbn [peval].
+    + apply is0_true in E0. rewrite (ofQ_eq0 _ E0). ring.
+    + apply is0_false in E0. intro X. apply (ofQ_neq0 _ E0). rewrite <- X. ring.
+  - injection H as <-. cbn [sres_spec]. split; [discriminate|].
+    intros alt [<- | []] x. rewrite <- Hpe.
+    assert (N1 : ~ (c1 == 0)%Q) by (apply (Hnz [c0] c1); [cbn; lia | reflexivity]).
+    destruct (linear_exact c0 c1 N1) as [r [Hr Hx]]. cbn [solve_poly_linear] in Hr. injection Hr as <-.
+    rewrite Hx, vals_cons, vals_nil. tauto.
+  - assert (N2 : ~ (c2 == 0)%Q) by (apply (Hnz [c0; c1] c2); [cbn; lia | reflexivity]).
+    cbv zeta in Hloc.
+    pose proof (quadratic_factor c0 c1 c2 N2
+                  (Hloc (fst (quadratic_roots c0 c1 c2)) ltac:(cbn [In]; tauto))
+                  (Hloc (snd (quadratic_roots c0 c1 c2)) ltac:(cbn [In]; tauto))) as QF.
+    cbv zeta in QF.
+    destruct (quadratic_roots c0 c1 c2) as [r1 r2]. cbn [fst snd] in QF.
+    injection H as <-. cbn [sres_spec]. split; [discriminate|].
+    intros alt [<- | []] x. rewrite <- Hpe, QF, vals_set_of, !vals_cons, vals_nil.
+    pose proof (ofQ_neq0 _ N2) as NN. rewrite !mul_eq0_iff, !sub_eq0_iff. tauto.
+  - assert (N3 : ~ (c3 == 0)%Q) by (apply (Hnz [c0; c1; c2] c3); [cbn; lia | reflexivity]).
+    cbv zeta in Hloc.
+    injection H as <-. cbn [sres_spec]. split; [discriminate|].
+    intros alt [<- | []] x. rewrite <- Hpe.
+    apply cubic_roots_iff_local; [exact N3 | | |]; apply Hloc; cbn [In]; tauto.
+  - assert (N4 : ~ (c4 == 0)%Q) by (apply (Hnz [c0; c1; c2; c3] c4); [cbn; lia | reflexivity]).
+    injection H as <-. cbn [sres_spec]. split; [apply quartic_alts_nonempty|].
+    intros alt Ha x. rewrite <- Hpe. apply quartic_exact_local; assumption.
+  - injection H as <-. cbn [sres_spec]. rewrite Eco. cbn [length]. lia.
+Qed.
+
+(* ---------------------------------------------------------------- quartic (total radicals) *)
+Section Total.
+Hypothesis Hsqrt : forall x, fsqrt x * fsqrt x = x.
+Hypothesis Hcbrt : forall x, fcbrt x * fcbrt x * fcbrt x = x.
+Hypothesis Hi : fi * fi = - (1).
+
+Lemma all_ok : forall e, rad_ok e.
+Proof. exact (rad_ok_total Hsqrt Hcbrt Hi). Qed.
+
+Lemma cubic_roots_iff : forall c0 c1 c2 c3, ~ (c3 == 0)%Q ->
+  forall x, peval [c0; c1; c2; c3] x = 0 <-> vals (cubic_set c0 c1 c2 c3) x.
+Proof.
+  intros c0 c1 c2 c3 H3 x.
+  rewrite (cubic_factor c0 c1 c2 c3 H3 (all_ok _) (all_ok _) (all_ok _) x).
+  rewrite cubic_set_vals. pose proof (ofQ_neq0 _ H3) as N3.
+  rewrite !mul_eq0_iff, !sub_eq0_iff. tauto.
+Qed.
+
+Lemma quadratic_roots_iff : forall c0 c1 c2, ~ (c2 == 0)%Q ->
+  forall x, peval [c0; c1; c2] x = 0 <->
+            (x = eval (fst (quadratic_roots c0 c1 c2)) \/ x = eval (snd (quadratic_roots c0 c1 c2))).
+Proof.
+  intros c0 c1 c2 H2 x.
+  rewrite (quadratic_factor c0 c1 c2 H2 (all_ok _) (all_ok _) x).
+  pose proof (ofQ_neq0 _ H2) as N2.
+  rewrite !mul_eq0_iff, !sub_eq0_iff. tauto.
+Qed.
+
+Theorem quartic_exact : forall c0 c1 c2 c3 c4, ~ (c4 == 0)%Q ->
+  forall alt, In alt (quartic_alts c0 c1 c2 c3 c4) ->
+  forall x, peval [c0; c1; c2; c3; c4] x = 0 <-> vals alt x.
+Proof.
+  intros c0 c1 c2 c3 c4 H4. apply quartic_exact_local; [exact H4|]. intros e _. apply all_ok.
+Qed.
+
+
+
+
+
+Theorem solve_poly_exact : forall cs s, solve_poly cs = Ok s -> sres_spec cs s.
+Proof.
+  intros cs s. apply solve_poly_exact_local. intros e _. apply all_ok.
+Qed.
+
+Theorem solve_poly_total : forall cs, exists s, solve_poly cs = Ok s.
+Proof.
+  intro cs. unfold solve_poly.
+  assert (Hne : extract_coeffs cs <> []) by (unfold extract_coeffs; destruct (strip_high cs); discriminate).
+  destruct (extract_coeffs cs) as [|c0 [|c1 [|c2 [|c3 [|c4 [|c5 rest]]]]]]; [congruence| | | | | |];
+    cbn [length Nat.leb solve_poly_heuristics lift1 solve_poly_linear solve_poly_quadratic solve_poly_cubic solve_poly_quartic].
+  - eexists; reflexivity.
+  - eexists; reflexivity.
+  - destruct (quadratic_roots c0 c1 c2). eexists; reflexivity.
+  - eexists; reflexivity.
+  - eexists; reflexivity.
+  - eexists; reflexivity.
+Qed.
+
+(* ---------------------------------------------------------------- rational equations *)
+Lemma set_diff_sub : forall a b v, vals (set_diff a b) v -> vals a v.
+Proof.
+  intros a b v [r [Hr E]]. unfold set_diff in Hr. apply filter_In in Hr. exists r. tauto.
+Qed.
+
+Lemma set_diff_complete : forall a b v, vals a v -> ~ vals b v -> vals (set_diff a b) v.
+Proof.
+  intros a b v [r [Hr E]] Hb. exists r. split; [|exact E].
+  unfold set_diff. apply filter_In. split; [exact Hr|].
+  destruct (set_mem r b) eqn:M; [|reflexivity].
+  exfalso. apply Hb. destruct (set_mem_eval _ _ M) as [y [Hy Ey]]. exists y. split; [exact Hy|]. congruence.
+Qed.
+
+Definition is_rq (e : rx) : bool := match e with RQ _ => true | _ => false end.
+
+Lemma set_diff_rq_excl : forall a b v,
+  forallb is_rq a = true -> forallb is_rq b = true -> vals (set_diff a b) v -> ~ vals b v.
+Proof.
+  intros a b v Ha Hb [r [Hr E]] [y [Hy Ey]].
+  unfold set_diff in Hr. apply filter_In in Hr. destruct Hr as [Hr M].
+  rewrite forallb_forall in Ha, Hb. specialize (Ha r Hr). specialize (Hb y Hy).
+  destruct r; try discriminate. destruct y; try discriminate.
+  cbn [eval] in *. assert (X : (q == q0)%Q) by (apply ofQ_inj; congruence).
+  apply Bool.negb_true_iff in M. unfold set_mem in M.
+  assert (M' : existsb (rx_eqb (RQ q)) b = true).
+  { apply existsb_exists. exists (RQ q0). split; [exact Hy|]. cbn [rx_eqb]. apply Qeq_bool_iff. exact X. }
+  congruence.
+Qed.
+
+Lemma solve_polyexpr_eq : forall cs, solve_polyexpr cs = solve_poly cs.
+Proof.
+  intro cs. unfold solve_polyexpr, solve_poly.
+  destruct (extract_coeffs cs) as [|c0 [|c1 rest]]; reflexivity.
+Qed.
+
+(* every solution of num = 0 that is not a pole is returned, in every alternative;
+   everything returned is a zero of the numerator *)
+Theorem solve_rational_complete : forall num den s,
+  has_symbol_poly den = true -> solve_rational num den = Ok s ->
+  match s with
+  | SFinite alts => forall alt, In alt alts ->
+       (forall x, peval num x = 0 -> peval den x <> 0 -> vals alt x) /\
+       (forall x, vals alt x -> peval num x = 0)
+  | SEmpty => forall x, peval num x = 0 -> peval den x <> 0 -> False
+  | _ => True
+  end.
+Proof.
+  intros num den s Hsym H. unfold solve_rational in H. rewrite Hsym, !solve_polyexpr_eq in H.
+  destruct (solve_poly num) as [a| | |] eqn:Ea; try discriminate.
+  destruct (solve_poly den) as [b| | |] eqn:Eb; try discriminate.
+  injection H as <-.
+  pose proof (solve_poly_exact _ _ Ea) as Sa. pose proof (solve_poly_exact _ _ Eb) as Sb.
+  destruct a as [| |aa|]; cbn [complement norm_empty]; try exact I.
+  - cbn [sres_spec] in Sa. intros x Hx _. exact (Sa x Hx).
+  - cbn [sres_spec] in Sa. destruct Sa as [Hne Sa].
+    destruct b as [| |bb|]; cbn [complement norm_empty]; try exact I.
+    + (* the denominator never vanishes *)
+      destruct (forallb _ aa) eqn:Eall.
+      * intros x Hx _. destruct aa as [|al aa']; [congruence|].
+        cbn [forallb] in Eall. apply andb_prop in Eall. destruct Eall as [Eal _].
+        destruct al; [|discriminate]. apply (Sa [] (or_introl eq_refl) x) in Hx. apply vals_nil in Hx. exact Hx.
+      * intros alt Ha. split; intros x; [intros Hx _|intro Hv]; apply (Sa alt Ha x); assumption.
+    + cbn [sres_spec] in Sb. destruct Sb as [Hneb Sb].
+      set (alts := flat_map (fun x => map (fun y => set_diff x y) bb) aa).
+      assert (Hin : forall alt, In alt alts -> exists xa yb, In xa aa /\ In yb bb /\ alt = set_diff xa yb).
+      { intros alt Ha. unfold alts in Ha. apply in_flat_map in Ha. destruct Ha as [xa [Hxa Ha]].
+        apply in_map_iff in Ha. destruct Ha as [yb [<- Hyb]]. exists xa, yb. tauto. }
+      assert (Hall : forall alt, In alt alts ->
+                (forall x, peval num x = 0 -> peval den x <> 0 -> vals alt x) /\
+                (forall x, vals alt x -> peval num x = 0)).
+      { intros alt Ha. destruct (Hin alt Ha) as [xa [yb [Hxa [Hyb ->]]]]. split.
+        - intros x Hx Hd. apply set_diff_complete; [apply (Sa xa Hxa x); exact Hx|].
+          intro Hv. apply Hd. apply (Sb yb Hyb x). exact Hv.
+        - intros x Hv. apply (Sa xa Hxa x). eapply set_diff_sub. exact Hv. }
+      destruct (forallb _ alts) eqn:Eall; [|exact Hall].
+      intros x Hx Hd.
+      destruct aa as [|xa aa']; [congruence|]. destruct bb as [|yb bb']; [congruence|].
+      assert (Ha : In (set_diff xa yb) alts) by (unfold alts; cbn [flat_map map]; left; reflexivity).
+      rewrite forallb_forall in Eall. specialize (Eall _ Ha).
+      destruct (Hall _ Ha) as [Hc _]. specialize (Hc x Hx Hd).
+      destruct (set_diff xa yb); [apply vals_nil in Hc; exact Hc | discriminate].
+Qed.
+
+(* with rational roots only, poles are excluded exactly *)
+Theorem solve_rational_exact_guarded : forall num den la lb,
+  has_symbol_poly den = true ->
+  solve_poly num = Ok (SFinite [la]) -> solve_poly den = Ok (SFinite [lb]) ->
+  forallb is_rq la = true -> forallb is_rq lb = true ->
+  forall x, vals (set_diff la lb) x <-> (peval num x = 0 /\ peval den x <> 0).
+Proof.
+  intros num den la lb Hsym Ea Eb Ga Gb x.
+  pose proof (solve_poly_exact _ _ Ea) as [_ Sa]. pose proof (solve_poly_exact _ _ Eb) as [_ Sb].
+  specialize (Sa la (or_introl eq_refl) x). specialize (Sb lb (or_introl eq_refl) x).
+  split.
+  - intro Hv. split; [apply Sa; eapply set_diff_sub; exact Hv|].
+    intro Hd. apply Sb in Hd. exact (set_diff_rq_excl la lb x Ga Gb Hv Hd).
+  - intros [Hn Hd]. apply set_diff_complete; [apply Sa; exact Hn|]. intro Hv. apply Hd. apply Sb. exact Hv.
+Qed.
+
+End Total.
 
 End Sem.
